@@ -309,3 +309,31 @@ func (x *Bool) Store(b bool) {
 		StoreInt32(&x.v, 0)
 	}
 }
+
+// Value is the controlled replacement of atomic.Value: every operation is a scheduling point.
+type Value struct{ v atomic.Value }
+
+func (x *Value) Load() interface{}   { atomicPoint(); return x.v.Load() }
+func (x *Value) Store(v interface{}) { atomicPoint(); x.v.Store(v) }
+func (x *Value) Swap(v interface{}) interface{} {
+	atomicPoint()
+	return x.v.Swap(v)
+}
+func (x *Value) CompareAndSwap(o, n interface{}) bool {
+	atomicPoint()
+	return x.v.CompareAndSwap(o, n)
+}
+
+type Uint32 struct{ v uint32 }
+
+func (x *Uint32) Load() uint32                    { return LoadUint32(&x.v) }
+func (x *Uint32) Store(v uint32)                  { StoreUint32(&x.v, v) }
+func (x *Uint32) Add(d uint32) uint32             { return AddUint32(&x.v, d) }
+func (x *Uint32) CompareAndSwap(o, n uint32) bool { return CompareAndSwapUint32(&x.v, o, n) }
+
+type Uint64 struct{ v uint64 }
+
+func (x *Uint64) Load() uint64                    { return LoadUint64(&x.v) }
+func (x *Uint64) Store(v uint64)                  { StoreUint64(&x.v, v) }
+func (x *Uint64) Add(d uint64) uint64             { return AddUint64(&x.v, d) }
+func (x *Uint64) CompareAndSwap(o, n uint64) bool { return CompareAndSwapUint64(&x.v, o, n) }
